@@ -150,6 +150,26 @@ def solver_safe(t):
     return all(n["k"] == "leaf" or n["s"] == 1 or all(k["k"] == "leaf" for k in n["kids"]) for n in subs(t))
 
 
+def ast_safe(a):
+    """the safe grammar of Lean's `Ast.SafeExpr` (Lemmas/SafeBuild.lean): expressions that must build a solver-safe model"""
+    c = a["c"]
+    if c == "var": return (a["lo"], a["hi"]) == (0, 1)
+    if c == "str": return True
+    atom = lambda x: x["c"] in ("var", "str")
+    if c == "Not": return ast_safe(a["arg"])
+    if c == "Imply": return ast_safe(a["cond"]) and ast_safe(a["cons"])
+    if c in ("ccAny", "ccXor"): return False
+    args = a["args"]
+    if not all(ast_safe(x) for x in args): return False
+    if c in ("All", "Any", "XNor", "Stingy"): return True
+    if c in ("AtMost", "Xor", "ExactlyOne"): return all(atom(x) for x in args)
+    if c == "AtLeast":
+        s = a.get("sign")
+        if s is None: s = 1 if a["v"] > 0 else -1
+        return s == 1 or all(atom(x) for x in args)
+    return False
+
+
 def tags_of(t):
     tg = set()
     for n in subs(t):
@@ -355,6 +375,9 @@ def gen_valid(rng, quick=True, **kw):
 def render_value(rng, lo, hi):
     """one of the three value forms the API accepts"""
     r = rng.random()
+    if lo == hi and r < 0.1:
+        import numpy
+        return rng.choice([numpy.int64, numpy.int32, numpy.int16])(lo) if -32768 <= lo <= 32767 else numpy.int64(lo)
     if lo == hi and r < 0.6:
         return lo
     if r < 0.8:
